@@ -1,5 +1,5 @@
 /-
-Color488Code, square sizes `L ≥ 1`: two faces (equal or not, seam copies included) share an even
+Color488Code, all sizes `Lx, Ly ≥ 1`: two faces (equal or not, seam copies included) share an even
 number of qubits; every row / column of qubits meets every face in an even number of qubits
 (the corners of a face come in pairs with the same `x`, and in pairs with the same `y`).
 Core Lean only.
@@ -16,85 +16,85 @@ theorem diff_mod4 {L : Nat} {a b : Int} (ha : a % 4 = 0) (hb : b % 4 = 0) :
   rw [Int.emod_emod_of_dvd _ (⟨2 * (L : Int), by omega⟩ : (4 : Int) ∣ 8 * (L : Int))]
   omega
 
-theorem sq_sq_even {L : Nat} (hL : 1 ≤ L) {ax ay bx by' : Int} (ha : IsF L ax ay)
-    (hb : IsF L bx by') : interCount (sqC L ax ay) (sqC L bx by') % 2 = 0 := by
-  have h4x := diff_mod4 (L := L) ha.1 hb.1
-  have h4y := diff_mod4 (L := L) ha.2.1 hb.2.1
-  show interCount [[(ax + -1) % (8 * (L : Int)), (ay + -1) % (8 * (L : Int))],
-    [(ax + 1) % (8 * (L : Int)), (ay + 1) % (8 * (L : Int))],
-    [(ax + -1) % (8 * (L : Int)), (ay + 1) % (8 * (L : Int))],
-    [(ax + 1) % (8 * (L : Int)), (ay + -1) % (8 * (L : Int))]] (sqC L bx by') % 2 = 0
+theorem sq_sq_even {Lx Ly : Nat} (hx : 1 ≤ Lx) (hy : 1 ≤ Ly) {ax ay bx by' : Int} (ha : IsF Lx Ly ax ay)
+    (hb : IsF Lx Ly bx by') : interCount (sqC Lx Ly ax ay) (sqC Lx Ly bx by') % 2 = 0 := by
+  have h4x := diff_mod4 (L := Lx) ha.1 hb.1
+  have h4y := diff_mod4 (L := Ly) ha.2.1 hb.2.1
+  show interCount [[(ax + -1) % (8 * (Lx : Int)), (ay + -1) % (8 * (Ly : Int))],
+    [(ax + 1) % (8 * (Lx : Int)), (ay + 1) % (8 * (Ly : Int))],
+    [(ax + -1) % (8 * (Lx : Int)), (ay + 1) % (8 * (Ly : Int))],
+    [(ax + 1) % (8 * (Lx : Int)), (ay + -1) % (8 * (Ly : Int))]] (sqC Lx Ly bx by') % 2 = 0
   rw [interCount_4]
-  simp only [ss1 hL h4x h4y, ss2 hL h4x h4y, ss3 hL h4x h4y, ss4 hL h4x h4y]
-  generalize (if (bx - ax) % (8 * (L : Int)) = 0 ∧ (by' - ay) % (8 * (L : Int)) = 0 then 1 else 0)
+  simp only [ss1 hx hy h4x h4y, ss2 hx hy h4x h4y, ss3 hx hy h4x h4y, ss4 hx hy h4x h4y]
+  generalize (if (bx - ax) % (8 * (Lx : Int)) = 0 ∧ (by' - ay) % (8 * (Ly : Int)) = 0 then 1 else 0)
     = t
   omega
 
-theorem oc_sq_even {L : Nat} (hL : 1 ≤ L) {ax ay bx by' : Int} (ha : IsF L ax ay)
-    (hb : IsF L bx by') : interCount (ocC L ax ay) (sqC L bx by') % 2 = 0 := by
-  have h4x := diff_mod4 (L := L) ha.1 hb.1
-  have h4y := diff_mod4 (L := L) ha.2.1 hb.2.1
-  show interCount [[(ax + 1) % (8 * (L : Int)), (ay + -3) % (8 * (L : Int))],
-    [(ax + 3) % (8 * (L : Int)), (ay + -1) % (8 * (L : Int))],
-    [(ax + 3) % (8 * (L : Int)), (ay + 1) % (8 * (L : Int))],
-    [(ax + 1) % (8 * (L : Int)), (ay + 3) % (8 * (L : Int))],
-    [(ax + -1) % (8 * (L : Int)), (ay + 3) % (8 * (L : Int))],
-    [(ax + -3) % (8 * (L : Int)), (ay + 1) % (8 * (L : Int))],
-    [(ax + -3) % (8 * (L : Int)), (ay + -1) % (8 * (L : Int))],
-    [(ax + -1) % (8 * (L : Int)), (ay + -3) % (8 * (L : Int))]] (sqC L bx by') % 2 = 0
+theorem oc_sq_even {Lx Ly : Nat} (hx : 1 ≤ Lx) (hy : 1 ≤ Ly) {ax ay bx by' : Int} (ha : IsF Lx Ly ax ay)
+    (hb : IsF Lx Ly bx by') : interCount (ocC Lx Ly ax ay) (sqC Lx Ly bx by') % 2 = 0 := by
+  have h4x := diff_mod4 (L := Lx) ha.1 hb.1
+  have h4y := diff_mod4 (L := Ly) ha.2.1 hb.2.1
+  show interCount [[(ax + 1) % (8 * (Lx : Int)), (ay + -3) % (8 * (Ly : Int))],
+    [(ax + 3) % (8 * (Lx : Int)), (ay + -1) % (8 * (Ly : Int))],
+    [(ax + 3) % (8 * (Lx : Int)), (ay + 1) % (8 * (Ly : Int))],
+    [(ax + 1) % (8 * (Lx : Int)), (ay + 3) % (8 * (Ly : Int))],
+    [(ax + -1) % (8 * (Lx : Int)), (ay + 3) % (8 * (Ly : Int))],
+    [(ax + -3) % (8 * (Lx : Int)), (ay + 1) % (8 * (Ly : Int))],
+    [(ax + -3) % (8 * (Lx : Int)), (ay + -1) % (8 * (Ly : Int))],
+    [(ax + -1) % (8 * (Lx : Int)), (ay + -3) % (8 * (Ly : Int))]] (sqC Lx Ly bx by') % 2 = 0
   rw [interCount_8]
-  simp only [os1 hL h4x h4y, os2 hL h4x h4y, os3 hL h4x h4y, os4 hL h4x h4y, os5 hL h4x h4y,
-    os6 hL h4x h4y, os7 hL h4x h4y, os8 hL h4x h4y]
-  generalize (if (bx - ax) % (8 * (L : Int)) = 0 ∧ (by' - ay) % (8 * (L : Int)) = 8 * (L : Int) - 4
+  simp only [os1 hx hy h4x h4y, os2 hx hy h4x h4y, os3 hx hy h4x h4y, os4 hx hy h4x h4y, os5 hx hy h4x h4y,
+    os6 hx hy h4x h4y, os7 hx hy h4x h4y, os8 hx hy h4x h4y]
+  generalize (if (bx - ax) % (8 * (Lx : Int)) = 0 ∧ (by' - ay) % (8 * (Ly : Int)) = 8 * (Ly : Int) - 4
     then 1 else 0) = t1
-  generalize (if (bx - ax) % (8 * (L : Int)) = 4 ∧ (by' - ay) % (8 * (L : Int)) = 0
+  generalize (if (bx - ax) % (8 * (Lx : Int)) = 4 ∧ (by' - ay) % (8 * (Ly : Int)) = 0
     then 1 else 0) = t2
-  generalize (if (bx - ax) % (8 * (L : Int)) = 0 ∧ (by' - ay) % (8 * (L : Int)) = 4
+  generalize (if (bx - ax) % (8 * (Lx : Int)) = 0 ∧ (by' - ay) % (8 * (Ly : Int)) = 4
     then 1 else 0) = t3
-  generalize (if (bx - ax) % (8 * (L : Int)) = 8 * (L : Int) - 4 ∧ (by' - ay) % (8 * (L : Int)) = 0
+  generalize (if (bx - ax) % (8 * (Lx : Int)) = 8 * (Lx : Int) - 4 ∧ (by' - ay) % (8 * (Ly : Int)) = 0
     then 1 else 0) = t4
   omega
 
-theorem oc_oc_even {L : Nat} (hL : 1 ≤ L) {ax ay bx by' : Int} (ha : IsF L ax ay)
-    (hb : IsF L bx by') : interCount (ocC L ax ay) (ocC L bx by') % 2 = 0 := by
-  have h4x := diff_mod4 (L := L) ha.1 hb.1
-  have h4y := diff_mod4 (L := L) ha.2.1 hb.2.1
-  show interCount [[(ax + 1) % (8 * (L : Int)), (ay + -3) % (8 * (L : Int))],
-    [(ax + 3) % (8 * (L : Int)), (ay + -1) % (8 * (L : Int))],
-    [(ax + 3) % (8 * (L : Int)), (ay + 1) % (8 * (L : Int))],
-    [(ax + 1) % (8 * (L : Int)), (ay + 3) % (8 * (L : Int))],
-    [(ax + -1) % (8 * (L : Int)), (ay + 3) % (8 * (L : Int))],
-    [(ax + -3) % (8 * (L : Int)), (ay + 1) % (8 * (L : Int))],
-    [(ax + -3) % (8 * (L : Int)), (ay + -1) % (8 * (L : Int))],
-    [(ax + -1) % (8 * (L : Int)), (ay + -3) % (8 * (L : Int))]] (ocC L bx by') % 2 = 0
+theorem oc_oc_even {Lx Ly : Nat} (hx : 1 ≤ Lx) (hy : 1 ≤ Ly) {ax ay bx by' : Int} (ha : IsF Lx Ly ax ay)
+    (hb : IsF Lx Ly bx by') : interCount (ocC Lx Ly ax ay) (ocC Lx Ly bx by') % 2 = 0 := by
+  have h4x := diff_mod4 (L := Lx) ha.1 hb.1
+  have h4y := diff_mod4 (L := Ly) ha.2.1 hb.2.1
+  show interCount [[(ax + 1) % (8 * (Lx : Int)), (ay + -3) % (8 * (Ly : Int))],
+    [(ax + 3) % (8 * (Lx : Int)), (ay + -1) % (8 * (Ly : Int))],
+    [(ax + 3) % (8 * (Lx : Int)), (ay + 1) % (8 * (Ly : Int))],
+    [(ax + 1) % (8 * (Lx : Int)), (ay + 3) % (8 * (Ly : Int))],
+    [(ax + -1) % (8 * (Lx : Int)), (ay + 3) % (8 * (Ly : Int))],
+    [(ax + -3) % (8 * (Lx : Int)), (ay + 1) % (8 * (Ly : Int))],
+    [(ax + -3) % (8 * (Lx : Int)), (ay + -1) % (8 * (Ly : Int))],
+    [(ax + -1) % (8 * (Lx : Int)), (ay + -3) % (8 * (Ly : Int))]] (ocC Lx Ly bx by') % 2 = 0
   rw [interCount_8]
-  simp only [oo1 hL h4x h4y, oo2 hL h4x h4y, oo3 hL h4x h4y, oo4 hL h4x h4y, oo5 hL h4x h4y,
-    oo6 hL h4x h4y, oo7 hL h4x h4y, oo8 hL h4x h4y]
-  generalize (if ((bx - ax) % (8 * (L : Int)) = 0 ∧ (by' - ay) % (8 * (L : Int)) = 0) ∨
-    ((bx - ax) % (8 * (L : Int)) = 4 ∧ (by' - ay) % (8 * (L : Int)) = 8 * (L : Int) - 4)
+  simp only [oo1 hx hy h4x h4y, oo2 hx hy h4x h4y, oo3 hx hy h4x h4y, oo4 hx hy h4x h4y, oo5 hx hy h4x h4y,
+    oo6 hx hy h4x h4y, oo7 hx hy h4x h4y, oo8 hx hy h4x h4y]
+  generalize (if ((bx - ax) % (8 * (Lx : Int)) = 0 ∧ (by' - ay) % (8 * (Ly : Int)) = 0) ∨
+    ((bx - ax) % (8 * (Lx : Int)) = 4 ∧ (by' - ay) % (8 * (Ly : Int)) = 8 * (Ly : Int) - 4)
     then 1 else 0) = t1
-  generalize (if ((bx - ax) % (8 * (L : Int)) = 0 ∧ (by' - ay) % (8 * (L : Int)) = 0) ∨
-    ((bx - ax) % (8 * (L : Int)) = 4 ∧ (by' - ay) % (8 * (L : Int)) = 4)
+  generalize (if ((bx - ax) % (8 * (Lx : Int)) = 0 ∧ (by' - ay) % (8 * (Ly : Int)) = 0) ∨
+    ((bx - ax) % (8 * (Lx : Int)) = 4 ∧ (by' - ay) % (8 * (Ly : Int)) = 4)
     then 1 else 0) = t2
-  generalize (if ((bx - ax) % (8 * (L : Int)) = 8 * (L : Int) - 4 ∧ (by' - ay) % (8 * (L : Int)) = 4) ∨
-    ((bx - ax) % (8 * (L : Int)) = 0 ∧ (by' - ay) % (8 * (L : Int)) = 0)
+  generalize (if ((bx - ax) % (8 * (Lx : Int)) = 8 * (Lx : Int) - 4 ∧ (by' - ay) % (8 * (Ly : Int)) = 4) ∨
+    ((bx - ax) % (8 * (Lx : Int)) = 0 ∧ (by' - ay) % (8 * (Ly : Int)) = 0)
     then 1 else 0) = t3
-  generalize (if ((bx - ax) % (8 * (L : Int)) = 8 * (L : Int) - 4 ∧
-      (by' - ay) % (8 * (L : Int)) = 8 * (L : Int) - 4) ∨
-    ((bx - ax) % (8 * (L : Int)) = 0 ∧ (by' - ay) % (8 * (L : Int)) = 0)
+  generalize (if ((bx - ax) % (8 * (Lx : Int)) = 8 * (Lx : Int) - 4 ∧
+      (by' - ay) % (8 * (Ly : Int)) = 8 * (Ly : Int) - 4) ∨
+    ((bx - ax) % (8 * (Lx : Int)) = 0 ∧ (by' - ay) % (8 * (Ly : Int)) = 0)
     then 1 else 0) = t4
   omega
 
 /-- two faces (equal or not) share an even number of qubits -/
-theorem face_face_even {L : Nat} (hL : 1 ≤ L) {ax ay bx by' : Int} (ha : IsF L ax ay)
-    (hb : IsF L bx by') : interCount (supp L ax ay) (supp L bx by') % 2 = 0 := by
+theorem face_face_even {Lx Ly : Nat} (hx : 1 ≤ Lx) (hy : 1 ≤ Ly) {ax ay bx by' : Int} (ha : IsF Lx Ly ax ay)
+    (hb : IsF Lx Ly bx by') : interCount (supp Lx Ly ax ay) (supp Lx Ly bx by') % 2 = 0 := by
   unfold supp
   by_cases h1 : (ax + ay) % 8 = 0 <;> by_cases h2 : (bx + by') % 8 = 0
-  · rw [if_pos h1, if_pos h2]; exact sq_sq_even hL ha hb
-  · rw [if_pos h1, if_neg h2, interCount_comm _ _ (nodup_sqC hL ..) (nodup_ocC hL ..)]
-    exact oc_sq_even hL hb ha
-  · rw [if_neg h1, if_pos h2]; exact oc_sq_even hL ha hb
-  · rw [if_neg h1, if_neg h2]; exact oc_oc_even hL ha hb
+  · rw [if_pos h1, if_pos h2]; exact sq_sq_even hx hy ha hb
+  · rw [if_pos h1, if_neg h2, interCount_comm _ _ (nodup_sqC hx hy ..) (nodup_ocC hx hy ..)]
+    exact oc_sq_even hx hy hb ha
+  · rw [if_neg h1, if_pos h2]; exact oc_sq_even hx hy ha hb
+  · rw [if_neg h1, if_neg h2]; exact oc_oc_even hx hy ha hb
 
 /-! ### rows and columns of qubits -/
 
@@ -126,9 +126,9 @@ theorem oc_pairs (π : Coord → Bool) (a1 a3 n1 n3 b1 b3 m1 m3 : Int)
   · rw [h a1 n1 m3, h a3 n3 m1, h a3 n3 b1, h a1 n1 b3]; omega
 
 /-- the corners of a face come in pairs with the same `x` and in pairs with the same `y` -/
-theorem countP_supp_even (L : Nat) (x y : Int) (π : Coord → Bool)
+theorem countP_supp_even (Lx Ly : Nat) (x y : Int) (π : Coord → Bool)
     (h : (∀ a b b', π [a, b] = π [a, b']) ∨ (∀ a a' b, π [a, b] = π [a', b])) :
-    (supp L x y).countP π % 2 = 0 := by
+    (supp Lx Ly x y).countP π % 2 = 0 := by
   unfold supp
   by_cases h8 : (x + y) % 8 = 0
   · rw [if_pos h8]; exact sq_pairs π _ _ _ _ h
